@@ -248,7 +248,16 @@ func decideRTNoZone(c rtCase) (*rp.Fail, string, bool) {
 			if errZ == nil {
 				used := reflect.New(v.Type())
 				if err := codec.Unmarshal(append([]byte(nil), enc...), used.Interface()); err == nil {
+					// the caller keeps the decoded value the way values are kept - a copy of the struct (a list entry, a map value) - and
+					// uses the variable for the next message: the kept value stays what it was
+					kept := reflect.New(v.Type()).Elem()
+					kept.Set(used.Elem())
+					keptBefore := fv.CanonAll(kept)
 					if p := try(func() { err = codec.Unmarshal(append([]byte(nil), zeroMsg...), used.Interface()) }); p == nil && err == nil {
+						if d := fv.FirstDiff(keptBefore, fv.CanonAll(kept)); d != "" {
+							fail = rp.Failf("codec.Unmarshal/earlier-result-changed-by-next-decode", "%s in zone %s: a copy of the value decoded from %x changed when the next message (all-zero payload) was decoded into the same variable: %s", typeName, c.Zone, enc, d)
+							return
+						}
 						fl, ul := fv.Leaves(fresh), fv.Leaves(used.Elem())
 						for i := range fl {
 							if fl[i].Kind() == reflect.Ptr {
